@@ -221,6 +221,7 @@ class CVRPTWEnv(CVRPEnv):
     @staticmethod
     def load_data(
         name: str,
+        batch_size=[],
         solomon=False,
         path_instances: str = None,
         type: str = None,
